@@ -1646,6 +1646,11 @@ def run_tiled(ctx, c, reqs, pending):
             # the model is handed the matrix and cuts the tiles itself (`buildTiled` / `tileMask`)
             margs = model_args(dict(c, rows=tr, cols=tc, planes=1, src_order=[0]), np.array(keep))
             margs.update(R=R, C=C)
+            if not full_org:
+                # position values of every grid tile as the constructor ranks them: row and column in the total pixel matrix,
+                # then x, y, z of the tile's corner (source geometry of gen.sources.slide_image: origin 0, spacing 0.5,
+                # row direction -y, column direction -x) -- computed here, not read from the object
+                margs['coords'] = [[str(r0 + 1), str(c0 + 1), _rat(-0.5 * r0), _rat(-0.5 * c0), '0'] for (r0, c0) in grid]
             fn = 'buildTiled'
         else:
             margs = model_args(dict(c, rows=tr, cols=tc, planes=len(grid), src_order=list(range(len(grid))), spacing=-1.0), np.array(keep))
@@ -1656,6 +1661,10 @@ def run_tiled(ctx, c, reqs, pending):
                                         'keys': sorted([(-1 if s is None else s), k] for s, k in keys),
                                         'order': [[(-1 if s is None else s), k] for s, k in keys],
                                         'pd': list(bytes(d2.PixelData)) if c['ts'] in NATIVE else None,
+                                        # slide-coordinate DimensionIndexValues (model: `frameDimsSlide`)
+                                        'dims': ({f'{-1 if s is None else s},{k}': _div(it) for (s, k), it in
+                                                  zip(keys, d2.PerFrameFunctionalGroupsSequence)}
+                                                 if (c['mode'] == 'tpm' and not full_org and len(keys) == nf) else None),
                                         'frames': {f'{-1 if s is None else s},{k}': px[i].astype(np.int64).reshape(-1).tolist()
                                                    for i, (s, k) in enumerate(keys)}}))
         tpm_got = None
